@@ -33,7 +33,8 @@ ROOT_LABEL = "Root Node of ADF File"
 # struct types that the goto table never pushes (leaf attributes): label by hand
 EXTRA_TYPES = {"cgns_descr": ["Descriptor_t"], "cgns_units": ["DimensionalUnits_t"], "cgns_exponent": ["DimensionalExponents_t"],
                "cgns_conversion": ["DataConversion_t"], "cgns_ptset": ["IndexArray_t", "IndexRange_t"],
-               "cgns_famname": ["FamilyName_t"], "cgns_part": ["GeometryEntity_t"], "cgns_file": [ROOT_LABEL]}
+               "cgns_famname": ["FamilyName_t"], "cgns_part": ["GeometryEntity_t"], "cgns_file": [ROOT_LABEL],
+               "cgns_array": ["DataArray_t"]}
 VALUE_READERS = {"cgi_read_string": {"C1"}, "cgi_read_int_data": {"I4", "I8"}, "cgi_read_ptset": {"I4", "I8"},
                  "cgi_read_one_ptset": {"I4", "I8"}, "cgi_read_array": {"*"}, "cgi_read_node": set(), "cgi_read_node_data": set()}
 
@@ -113,7 +114,7 @@ class Ctx:
                 return t
         return None
 
-    def parent_of(self, f, expr, pos):
+    def parent_of(self, f, expr, pos, depth_guard=0):
         """('L', [labels]) | ('T', double parameter) | ('U', text)"""
         v = vals(expr)
         text = " ".join(v)
@@ -128,6 +129,25 @@ class Ctx:
             return ("L", labs) if labs else ("U", "posit_id without an address dispatcher")
         if len(v) == 1 and v[0] in f.doubles:
             return ("T", v[0])
+        if v in (["0.0"], ["0"]):
+            labs = sorted(set(self.addr_labels.get("cgi_array_address", [])))
+            return ("L", labs) if labs else ("U", text)
+        if len(v) == 1 and v[0] not in f.local_assign and f.name in self.addr_labels:
+            return ("L", sorted(set(self.addr_labels[f.name])))      # the node the dispatcher resolved (set inside its macros)
+        if len(v) == 1 and v[0] in f.local_assign and depth_guard < 3:
+            labs, bad = [], None
+            for rhs in f.local_assign[v[0]]:
+                if vals(rhs) in (["0"], ["0.0"]):
+                    continue
+                r = self.parent_of(f, rhs, pos, depth_guard + 1)
+                if r[0] == "L":
+                    labs += r[1]
+                else:
+                    bad = r
+            labs = sorted(set(labs))
+            if labs:
+                return ("L", labs)
+            return bad or ("U", text)
         if v and v[0] == "*" and len(v) == 2:
             v = v[1:]
         if v and v[0] in f.idvars_at(pos) and (len(v) == 1 or v[1] == "["):
@@ -167,6 +187,27 @@ def scan(f, ctx):
     """calls, writer templates, reader templates of one function"""
     toks = f.toks
     f._idassign = []
+    f.local_assign = {}
+    f.label_lits = {}
+    i = f.b0
+    while i < f.b1:           # X = EXPR ;   for plain identifiers X (node ids kept in local doubles)
+        if toks[i][0] == "id" and toks[i + 1][1] == "=" and toks[i - 1][1] in (";", "{", "}", ")", "else") and toks[i + 2][1] != "=":
+            j = i + 2
+            while j < f.b1 and toks[j][1] != ";":
+                j += 1
+            f.local_assign.setdefault(toks[i][1], []).append(toks[i + 2:j])
+        if toks[i][1] == "sprintf" and toks[i + 1][1] == "(":
+            a, _ = T.split_args(toks, i + 1)
+            av = [vals(x) for x in a]
+            # sprintf (label, "%.30s_t", V->name): the label is the node's name + "_t" -- every label of V's struct type
+            if len(a) == 3 and len(av[0]) == 1 and av[1] == ['"%.30s_t"'] and len(av[2]) == 3 and av[2][1] == "->" and av[2][2] == "name" \
+                    and av[2][0] in f.vartypes and ctx.type2labels.get(f.vartypes[av[2][0]]):
+                f.label_lits.setdefault(av[0][0], []).extend(ctx.type2labels[f.vartypes[av[2][0]]])
+        if toks[i][1] == "strcpy" and toks[i + 1][1] == "(":
+            a, _ = T.split_args(toks, i + 1)
+            if len(a) == 2 and len(a[0]) == 1 and len(a[1]) == 1 and a[1][0][1].startswith('"'):
+                f.label_lits.setdefault(a[0][0][1], []).append(unq(a[1][0][1]))
+        i += 1
     i = f.b0
     getpos = []
     while i < f.b1:
@@ -186,11 +227,10 @@ def scan(f, ctx):
             par = ctx.parent_of(f, args[0], pos)
             nm = vals(args[1])
             name = unq(nm[0]) if len(nm) == 1 and nm[0].startswith('"') else None
-            lb = vals(args[2])
-            if not (len(lb) == 1 and lb[0].startswith('"')):
-                f.wrows.append(("U", "label is not a literal: " + " ".join(lb)))
+            lbs = labels_of(f, vals(args[2]))
+            if lbs is None:
+                f.wrows.append(("U", "label is not a literal: " + " ".join(vals(args[2]))))
                 continue
-            label = unq(lb[0])
             dv = vals(args[4])
             if len(dv) == 1 and dv[0].startswith('"'):
                 dt = ("lit", unq(dv[0]))
@@ -205,12 +245,13 @@ def scan(f, ctx):
             for k in range(len(dat) - 1):
                 if dat[k].endswith("Name") and dat[k + 1] == "[":
                     enum_tbl = dat[k]
-            f.wrows.append(("W", par, name, label, dt, ndim, enum_tbl))
+            for label in lbs:
+                f.wrows.append(("W", par, name, label, dt, ndim, enum_tbl))
     for n, pos in enumerate(getpos):
         callee, args, _ = [c for c in f.calls if c[2] == pos][0]
-        lab = vals(args[1])
-        if not (len(lab) == 1 and lab[0].startswith('"')):
-            f.rrows.append(("U", "cgi_get_nodes label is not a literal: " + " ".join(lab)))
+        lbs = labels_of(f, vals(args[1]))
+        if lbs is None:
+            f.rrows.append(("U", "cgi_get_nodes label is not a literal: " + " ".join(vals(args[1]))))
             continue
         par = ctx.parent_of(f, args[0], pos)
         end = getpos[n + 1] if n + 1 < len(getpos) else f.b1
@@ -224,7 +265,19 @@ def scan(f, ctx):
                         acc.add(unq(xv[0]))
             if toks[k][0] == "id" and toks[k][1] in VALUE_READERS and toks[k + 1][1] == "(":
                 acc |= VALUE_READERS[toks[k][1]]
-        f.rrows.append(("R", par, unq(lab[0]), acc))
+        for label in lbs:
+            f.rrows.append(("R", par, label, acc))
+
+
+def labels_of(f, lb):
+    """the label argument: a literal, a local buffer filled by strcpy (label, "X"), or a parameter (template)"""
+    if len(lb) == 1 and lb[0].startswith('"'):
+        return [("lit", unq(lb[0]))]
+    if len(lb) == 1 and lb[0] in f.label_lits:
+        return [("lit", x) for x in sorted(set(f.label_lits[lb[0]]))]
+    if len(lb) == 1 and lb[0] in [p[1] for p in f.params]:
+        return [("param", lb[0])]
+    return None
 
 
 def own_accepts(f):
@@ -245,8 +298,9 @@ def own_accepts(f):
 
 
 def instantiate(funs, ctx, kind):
-    """propagate template rows (parent = a double parameter) to the call sites, to a fixpoint"""
+    """propagate template rows (parent = a double parameter and / or label = a parameter) to the call sites, to a fixpoint"""
     attr = "wrows" if kind == "W" else "rrows"
+    li = 3 if kind == "W" else 2           # position of the label in a row
     for _ in range(6):
         changed = False
         for g in funs.values():
@@ -254,27 +308,37 @@ def instantiate(funs, ctx, kind):
                 h = funs.get(callee)
                 if h is None or h is g:
                     continue
+                pnames = [p[1] for p in h.params]
                 for row in list(getattr(h, attr)):
-                    if row[0] != kind or row[1][0] != "T":
+                    if row[0] != kind:
                         continue
-                    pnames = [p[1] for p in h.params]
-                    if row[1][1] not in pnames:
+                    par, lab = row[1], row[li]
+                    if par[0] != "T" and lab[0] != "param":
                         continue
-                    k = pnames.index(row[1][1])
-                    if k >= len(args):
-                        continue
-                    par = ctx.parent_of(g, args[k], pos)
-                    new = (row[0], par) + tuple(row[2:]) + (h.name,)
-                    new = new[:len(row)]          # same shape as the template
-                    key = (new[0], par[0], tuple(par[1]) if par[0] == "L" else par[1]) + tuple(str(x) for x in new[2:])
-                    seen = getattr(g, "_seen_" + attr, None)
-                    if seen is None:
-                        seen = set()
-                        setattr(g, "_seen_" + attr, seen)
-                    if key not in seen:
-                        seen.add(key)
-                        getattr(g, attr).append(new)
-                        changed = True
+                    if par[0] == "T":
+                        if par[1] not in pnames or pnames.index(par[1]) >= len(args):
+                            continue
+                        par = ctx.parent_of(g, args[pnames.index(par[1])], pos)
+                    labs = [lab]
+                    if lab[0] == "param":
+                        if lab[1] not in pnames or pnames.index(lab[1]) >= len(args):
+                            continue
+                        labs = labels_of(g, vals(args[pnames.index(lab[1])]))
+                        if labs is None:
+                            continue
+                    for lb in labs:
+                        new = list(row)
+                        new[1], new[li] = par, lb
+                        new = tuple(new)
+                        key = repr(new)
+                        seen = getattr(g, "_seen_" + attr, None)
+                        if seen is None:
+                            seen = set()
+                            setattr(g, "_seen_" + attr, seen)
+                        if key not in seen:
+                            seen.add(key)
+                            getattr(g, attr).append(new)
+                            changed = True
         if not changed:
             break
 
@@ -362,9 +426,10 @@ def translate(repo):
                 wl.append("  WUnparsed (%s) (%s)" % (cs(f.name), cs(r[1][:80]))); stats["writer_unparsed"] += 1
                 unparsed.append("%s: %s" % (f.name, r[1][:80])); continue
             _, par, name, label, dt, ndim, etbl = r[:7]
-            if par[0] == "T":
+            if par[0] == "T" or label[0] == "param":
                 stats["templates_dropped"] += 1
                 continue
+            label = label[1]
             if par[0] == "U":
                 wl.append("  WUnparsed (%s) (%s)" % (cs(f.name), cs(("parent of %s: %s" % (label, par[1]))[:80]))); stats["writer_unparsed"] += 1
                 unparsed.append("%s: parent of %s: %s" % (f.name, label, par[1][:60])); continue
@@ -384,9 +449,10 @@ def translate(repo):
                 rl.append("  RUnparsed (%s) (%s)" % (cs(f.name), cs(r[1][:80]))); stats["reader_unparsed"] += 1
                 unparsed.append("%s: %s" % (f.name, r[1][:80])); continue
             _, par, label, acc = r[:4]
-            if par[0] == "T":
+            if par[0] == "T" or label[0] == "param":
                 stats["templates_dropped"] += 1
                 continue
+            label = label[1]
             if par[0] == "U":
                 rl.append("  RUnparsed (%s) (%s)" % (cs(f.name), cs(("parent of %s: %s" % (label, par[1]))[:80]))); stats["reader_unparsed"] += 1
                 unparsed.append("%s: parent of %s: %s" % (f.name, label, par[1][:60])); continue
@@ -430,7 +496,7 @@ def translate(repo):
                             alloc.append(unq(xv[0]))
     text = ("(* GENERATED on every run by translators/c01_templates.py from the current src/cgnslib.c, src/cgns_internals.c,\n"
             "   src/cgns_header.h and src/cgnslib.h.  Never edit, never commit. *)\n"
-            "From Coq Require Import ZArith List.\nFrom CgnsV Require Import SidsCodec.\nImport ListNotations.\n"
+            "From Coq Require Import ZArith List.\nFrom Coq Require String.\nImport String.StringSyntax.\nFrom CgnsV Require Import TreeDB SidsCodec.\nImport ListNotations.\n"
             "Local Open Scope Z_scope.\n\n"
             "Definition gen_writers : list wrow := [\n%s\n].\n\n"
             "Definition gen_readers : list rrow := [\n%s\n].\n\n"
